@@ -99,7 +99,9 @@ func (e *probeExt) ExecutionDidStart(ctx context.Context) (context.Context, grap
 func (e *probeExt) ResolveFieldDidStart(ctx context.Context, i *graphql.ResolveInfo) (context.Context, graphql.ResolveFieldFinishFunc) {
 	path := ref.PathKey(i.Path.AsArray())
 	e.hook("ResolveFieldDidStart", path)
-	return ctx, func(v interface{}, err error) { e.hook("ResolveFieldFinish", fmt.Sprintf("%s err=%v", path, err != nil)) }
+	return ctx, func(v interface{}, err error) {
+		e.hook("ResolveFieldFinish", fmt.Sprintf("%s err=%v", path, err != nil))
+	}
 }
 func (e *probeExt) HasResult() bool {
 	e.hook("HasResult", "")
